@@ -68,7 +68,7 @@ def expected(o, tag, root):
     kind, v1, v2 = OPTS[o]
     if tag == "default":
         if kind == "bool":
-            return o == "incremental_sync"   # the harness always passes --incremental_sync
+            return False
         d = DEFAULT[o]
         return d
     v = value_of(o, tag)
@@ -116,7 +116,7 @@ def check(st):
             json.dump(bad, open(fpath, "w"))
         elif kind == "missingExplicit":
             args.append("-c missing_config.json")
-        s, c = adapter.mkserver(root, " ".join(args), init=False)
+        s, c = adapter.mkserver(root, " ".join(args), init=False, base="--disable_autoupdate --nthreads 1 ")
         out = adapter.request(s, c, "initialize", {"rootPath": root}, rid=1)
         bad = []
         resp = [e for e in out if e["t"] in ("resp", "err")]
